@@ -516,6 +516,30 @@ func checkCancel(c CancelCase) error {
 	if isCancelled(r3.err, "") {
 		return fmt.Errorf("%s: still cancelled after Uncancel: %v", key, r3.err)
 	}
+	// A cancellation given after the reset is a new one: it stops the thread at once and names its own
+	// first reason, not anything remembered from before the reset; same for one given in the middle of a
+	// run and for a step limit that expires after the reset.
+	th.Cancel("reason-THREE")
+	th.Cancel("reason-FOUR")
+	r4 := runOn(th, c.Prog, 0, hooks{})
+	if !isCancelled(r4.err, "reason-THREE") || len(r4.events) != 0 || strings.Contains(r4.err.Error(), "reason-ONE") || strings.Contains(r4.err.Error(), "reason-FOUR") {
+		return fmt.Errorf("%s: cancelled again after Uncancel with reason-THREE then reason-FOUR: err=%v, %d effects", key, r4.err, len(r4.events))
+	}
+	th.Uncancel()
+	r5 := runOn(th, c.Prog, 0, hooks{cancelAt: k, reasons: []string{"reason-FIVE"}, fromOther: c.FromOther})
+	if !isCancelled(r5.err, "reason-FIVE") || len(r5.events) != k {
+		return fmt.Errorf("%s: cancelled at effect %d with reason-FIVE after two resets: err=%v, %d effects", key, k, r5.err, len(r5.events))
+	}
+	th.Uncancel()
+	r6 := runOn(th, c.Prog, th.ExecutionSteps()+1, hooks{})
+	if !isCancelled(r6.err, "too many steps") {
+		return fmt.Errorf("%s: step limit expiring after the resets: err=%v (expected cancellation: too many steps)", key, r6.err)
+	}
+	th.SetMaxExecutionSteps(^uint64(0))
+	th.Uncancel()
+	if r7 := runOn(th, c.Prog, 0, hooks{}); (r7.err != nil) != (base.err != nil) || len(r7.events) != len(base.events) || isCancelled(r7.err, "") {
+		return fmt.Errorf("%s: after the last Uncancel the run differs from the baseline: err=%v (baseline %v), %d effects (baseline %d)", key, r7.err, base.err, len(r7.events), len(base.events))
+	}
 	vk.S.Class(fmt.Sprintf("cancel:two=%v,other=%v,limit=%v", c.Two, c.FromOther, c.LimitDelta > 0))
 	if base.events[k-1].depth >= 2 {
 		vk.S.Class("cancel-inside-nested-call")
